@@ -8,6 +8,8 @@
        piestripped  -buildmode=pie -ldflags='-s -w': neither the section nor the ELF symbols
        external  -ldflags='-s=false -linkmode=external' (what cgo packages get): tables readable; the C start-up code comes
                  first in .text, so the pclntab-derived entries are off by a constant that goom measures at an anchor function
+       externalstripped  -ldflags='-s -w -linkmode=external': the constant offset of external linking WITHOUT the ELF
+                 symbols: the anchor variable is not found, the anchor function is - the function slide must still be measured
    The answers must not depend on the ORDER of lookups (which kind of symbol the process looks up first): every mode
    with readable variables is run twice, the second time with a variable as the very first lookup.
    MECHANISM (symbols.go / unexports2.go): loadSymbolTable once (sticky error); initAlignmentFunc computes the
@@ -18,14 +20,14 @@
    symbol's address - for absent names or unreadable tables. *)
 EXTENDS Integers, Sequences, TLC
 
-Modes == {"default", "symtab", "stripped", "pie", "piestripped", "external"}
-Pie(m) == m \in {"pie", "piestripped"}
+Modes == {"default", "symtab", "stripped", "pie", "piestripped", "external", "externalstripped", "pieexternal"}
+Pie(m) == m \in {"pie", "piestripped", "pieexternal"}     \* pieexternal: -buildmode=pie -linkmode=external
 Kinds == {"func", "var"}
 NameClasses == {"present", "absent"}
 
 FuncTable(m) == ~Pie(m)                        \* pclntab readable
 VarTable(m) == m \in {"symtab", "external"}                     \* ELF symbols readable (and the load as a whole succeeded)
-Slide(m) == IF Pie(m) THEN 4096 ELSE IF m = "external" THEN 256 ELSE 0       \* run-time minus file address
+Slide(m) == IF Pie(m) THEN 4096 ELSE IF m \in {"external", "externalstripped"} THEN 256 ELSE 0       \* run-time minus file address
 
 \* mechanism
 Loaded(m) == FuncTable(m)
